@@ -641,11 +641,18 @@ def policy_hooks_total(ctx, rule):
 
 
 def refresh_covers_unfinished(ctx, rule):
-    """task_handler._refresh_task_state is a one-shot wake-up: nothing
-    schedules it again after resume.  It therefore has to act for every
-    unfinished workflow state - PAUSED included - and for every waiting
-    state of the task; a refresh that returns early for a paused workflow is
-    a lost wake-up (the join stays WAITING after resume)."""
+    """task_handler._refresh_task_state is a one-shot wake-up.  It has to act
+    for every unfinished workflow state except PAUSED, and for PAUSED the
+    pair (do not start joins while paused, re-check every WAITING task on
+    resume) must hold:
+
+    * a join started during a pause consumes the routing of tasks that
+      completed during that pause; resume dispatches those tasks' commands
+      again and Task.defer puts the (finished) join back to WAITING - the
+      workflow hangs or the join runs twice (F21);
+    * nothing schedules a refresh on resume by itself: when all inbound
+      tasks completed while paused, or the join command came from the
+      backlog, the join created on resume stays WAITING for ever (F20)."""
     prog, sd = ctx.prog, ctx.sd
     f = prog.func('mistral.engine.task_handler._refresh_task_state')
     cfg = ctx.cfg(f)
@@ -661,18 +668,61 @@ def refresh_covers_unfinished(ctx, rule):
                             'controller for the logical state')
     for n, c in sites:
         wvals = {v[0] for v in IN[n.id]}
-        missing = set(sd.ALL) - done - wvals
+        missing = set(sd.ALL) - done - {'PAUSED'} - wvals
         rule.check(not missing,
                    ctx.construct(f, extra='every unfinished workflow state'),
                    'a scheduled join refresh does nothing while the workflow '
                    'is %s, and nothing re-schedules it: the join stays '
-                   'WAITING after resume' % sorted(missing), ctx.loc(f, c))
+                   'WAITING' % sorted(missing), ctx.loc(f, c))
+        rule.check('PAUSED' not in wvals,
+                   ctx.construct(f, extra='joins do not start while paused'),
+                   'a join is started while the workflow is PAUSED: the '
+                   'tasks that completed during the pause are dispatched '
+                   'again on resume and put the finished join back to '
+                   'WAITING (workflow hangs / join runs twice)',
+                   ctx.loc(f, c))
         tvals = {v[2] for v in IN[n.id] if v[1] is not None}
         need = {'WAITING'}
         rule.check(need <= tvals,
                    ctx.construct(f, extra='every waiting task'),
                    'the refresh does not act on WAITING tasks (%s)'
                    % sorted(map(str, tvals)), ctx.loc(f, c))
+    # resume re-checks every WAITING task, after the commands were dispatched
+    rs = prog.func('mistral.engine.workflows.Workflow.resume')
+    rcfg = ctx.cfg(rs)
+    cont = U.calls_in(rcfg, '_continue_workflow')
+    sched = U.calls_in(rcfg, '_schedule_refresh_task_state')
+    ok = bool(cont) and len(sched) == 1
+    why = 'no refresh is scheduled'
+    if ok:
+        n, c = sched[0]
+        loops = [x for x in own_nodes(rs.node) if isinstance(x, ast.For) and
+                 any(y is c for b in x.body for y in ast.walk(b))]
+        ok = len(loops) == 1 and rcfg.dominates(cont[0][0], n) and \
+            not [a for a, _t in U.guard_atoms(rcfg, n)
+                 if not isinstance(a, ast.For) and
+                 norm(a) != norm(loops[0].iter)] if loops else False
+        why = 'not for every WAITING task after the dispatch'
+        if ok:
+            lp = loops[0]
+            it = U.canon_expr(rs.node, lp.iter)
+            q = [x for x in ast.walk(it) if isinstance(x, ast.Call) and
+                 U.call_name(x) == 'get_task_executions']
+            okq = len(q) == 1 and \
+                {k.arg: norm(k.value) for k in q[0].keywords} == {
+                    'workflow_execution_id': 'self.wf_ex.id',
+                    'state': 'states.WAITING'}
+            ok = okq and norm(c.args[0]) == '%s.id' % norm(lp.target) and \
+                not [x for b in lp.body for x in ast.walk(b)
+                     if isinstance(x, (ast.Break, ast.Continue, ast.Return,
+                                       ast.If))]
+    rule.check(ok, ctx.construct(rs, extra='waiting tasks re-checked on '
+                                 'resume'),
+               'Workflow.resume does not schedule a refresh for every '
+               'WAITING task of the execution after dispatching the '
+               'commands (%s): a join whose inbound tasks all completed '
+               'while the workflow was paused (or whose command came from '
+               'the backlog) stays WAITING for ever' % why, ctx.loc(rs))
 
 
 LOCAL_TIME = {'datetime.now', 'datetime.datetime.now', 'datetime.today',
